@@ -110,6 +110,12 @@ def register(t):
         t[defer.fail] = lambda I, a, k: DStub("failed", a[0] if a else None)
     except Exception:
         pass
+    try:
+        import eliot
+        t[eliot.start_action] = lambda I, a, k: Opaque("eliot-action")
+        t[eliot.start_task] = lambda I, a, k: Opaque("eliot-task")
+    except Exception:
+        pass
     import hashlib
     t[hashlib.sha256] = mk_hash("sha256", 32)
     t[hashlib.sha1] = mk_hash("sha1", 20)
